@@ -221,6 +221,16 @@ def r3(ctx, R):
                 R.bad(fi, lp, "sub cells that is %s is %s" % (label, "updated (its own/other base's definition is overwritten)"
                                                                if got else "not updated"),
                       stmt="%s case %s" % (spec.split(".")[-1], label))
+    rc = ctx.func("SpaceManager.rename_cells")
+    R.inst("rename_cells: a sub space that has its own cells of the new name loses only the derived copy")
+    ren = [c for c in q.calls(rc, name="on_rename")]
+    dl = [c for c in q.calls(rc, name="on_del_cells")]
+    oc2 = lambda e: {"c is not cells": "T", "name in space.cells": "T"}.get(norm(e))
+    reached = q.run_abstract(rc, oc2)
+    if any(i in reached for c in ren for i in q.nodes_for(rc, c)) or not dl or \
+            not any(i in reached for c in dl for i in q.nodes_for(rc, c)):
+        R.bad(rc, ren[0] if ren else rc.node, "the derived cells of a sub is renamed onto the sub's own cells of that name, "
+                                               "which is overwritten", stmt="rename onto own cells")
     # ---- new_cells
     fi = ctx.func("SpaceManager.new_cells")
     lp = _sub_loops(fi)
